@@ -131,7 +131,46 @@ fn tbl_churn(g: &mut Gen, r: &dyn Runner) -> String {
     }
 }
 
+/// Profile `xback-table` (C18, cross-back-end only): HashTable operations whose results do not depend on the
+/// layout — insert_unique / remove / find / entry forms / the elements of one hash as a sorted set / capacity calls.
+fn tbl_xback(g: &mut Gen, r: &dyn Runner) -> String {
+    let x = g.rng.below(100);
+    let tgt = if g.rng.chance(1, 5) { "b" } else { "a" };
+    if x < 40 {
+        let k = g.key();
+        // no duplicates: `remove` / `find` of a duplicated key would depend on the layout
+        if r.keys(tgt).contains(&k) {
+            format!("{} find {}", tgt, k)
+        } else {
+            format!("{} insert_unique {}", tgt, tbl_new_elem(g, k))
+        }
+    } else if x < 58 {
+        let k = tbl_key(g, r, tgt);
+        format!("{} {} {}", tgt, g.rng.pick(&["remove", "find_entry_remove"]), k)
+    } else if x < 66 {
+        let k = tbl_key(g, r, tgt);
+        format!("{} find {}", tgt, k)
+    } else if x < 88 {
+        let k = tbl_key(g, r, tgt);
+        format!("{} x_iter_hash {}", tgt, k)
+    } else if x < 92 {
+        format!("{} reserve {}", tgt, g.rng.below(60))
+    } else if x < 95 {
+        format!("{} shrink_to_fit", tgt)
+    } else if x < 97 {
+        format!("{} shrink_to {}", tgt, g.rng.below(40))
+    } else if x < 98 {
+        format!("{} clear", tgt)
+    } else {
+        let k = tbl_key(g, r, tgt);
+        format!("{} findmut {} {}", tgt, k, 500 + g.rng.below(100))
+    }
+}
+
 pub fn next_table(g: &mut Gen, r: &dyn Runner) -> String {
+    if g.profile == "xback-table" {
+        return tbl_xback(g, r);
+    }
     if g.profile == "table-churn" {
         return tbl_churn(g, r);
     }
